@@ -1,4 +1,537 @@
-import Kap.Basic
+/-
+Driver for C10. A case describes one real kapacitor task (a tree of nodes under `stream|from()`), the points written
+and what the recording sink under EVERY node saw. For every node the driver takes what the PARENT's sink observed as the
+input and
+  * evaluates the documented function (Kap/Spec/C10.lean) on it and compares with what the node's own sink observed
+    → SPECFAIL (or KNOWN for a recorded deviation);
+  * runs the model (Kap/Model/C10.lean) on it and compares → MISMATCH.
+Aliasing: sink 0 must show exactly the written points, and every sink's final view must equal the copy it took at
+ingestion (a sibling that wrote into a shared map changes the final view).
+-/
+import Kap.Spec.C10
+open Kap Kap.C10
 
-/-- Driver for property C10 (replaced by the property's driver). -/
-def main : IO Unit := Kap.driverMain (fun _ _ => .badop "driver not implemented")
+namespace Kap.C10.Drv
+
+/-! ### parsing -/
+
+def hexU64? (s : String) : Option UInt64 :=
+  if s.length != 16 then none else
+  s.toList.foldl (fun acc c => match acc, hexVal c with
+    | some a, some d => some (a * 16 + UInt64.ofNat d)
+    | _, _ => none) (some 0)
+
+def hexOfU64 (u : UInt64) : String :=
+  let digs := (List.range 16).map (fun i => (u >>> (UInt64.ofNat (4 * (15 - i)))) &&& 0xF)
+  String.ofList (digs.map (fun d => let n := d.toNat; if n < 10 then Char.ofNat (48 + n) else Char.ofNat (87 + n)))
+
+/-- split at the first occurrence of a character -/
+def splitFirst (s : String) (c : Char) : Option (String × String) :=
+  match s.splitOn (String.singleton c) with
+  | [] => none
+  | [_] => none
+  | a :: rest => some (a, (String.singleton c).intercalate rest)
+
+def parseVal (s : String) : Option Val :=
+  match splitFirst s ':' with
+  | some ("i", v) => v.toInt?.map Val.int
+  | some ("f", v) => (hexU64? v).map Val.flt
+  | some ("s", v) => (unesc v).map Val.str
+  | some ("b", "1") => some (.bool true)
+  | some ("b", "0") => some (.bool false)
+  | some ("x", _) => some .missing
+  | _ => none
+
+def parseKV {α : Type} (pv : String → Option α) (s : String) : Option (List (String × α)) :=
+  if s == "-" || s == "" then some [] else
+  (s.splitOn ",").mapM (fun kv => do
+    let (k, v) ← splitFirst kv '='
+    pure ((← unesc k), (← pv v)))
+
+def parseFields := parseKV parseVal
+def parseTags := parseKV unesc
+
+def parseStrList (s : String) : Option (List String) :=
+  if s == "-" || s == "" then some [] else (s.splitOn ",").mapM unesc
+
+def parsePoint (tok : String) : Option Point :=
+  match tok.splitOn ";" with
+  | ["P", name, dims, byName, _gid, tags, fields, time] => do
+    pure { name := (← unesc name), tags := (← parseTags tags), fields := (← parseFields fields), time := (← time.toInt?),
+           dims := (← parseStrList dims), byName := byName == "1" }
+  | _ => none
+
+def pointGidTok (tok : String) : String :=
+  match tok.splitOn ";" with
+  | [_, _, _, _, gid, _, _, _] => gid
+  | _ => "?"
+
+def parseBPoint (tok : String) : Option BPoint :=
+  match tok.splitOn ";" with
+  | ["b", tags, fields, time] => do pure { tags := (← parseTags tags), fields := (← parseFields fields), time := (← time.toInt?) }
+  | _ => none
+
+/-- tokens of a stream sink → points (with the observed group ids) -/
+def parseStream (toks : List String) : Option (List (Point × String)) :=
+  toks.mapM (fun t => do pure ((← parsePoint t), pointGidTok t))
+
+/-- tokens of a batch sink → batches (with observed dims and group id tokens) -/
+partial def parseBatches (toks : List String) : Option (List (Batch × String × String)) :=
+  match toks with
+  | [] => some []
+  | t :: rest =>
+    match t.splitOn ";" with
+    | ["B", name, dims, byName, gid, tags, tmax, n] => do
+      let n ← n.toNat?
+      let pts ← (rest.take n).mapM parseBPoint
+      if pts.length != n then none else
+      let b : Batch := { name := (← unesc name), tags := (← parseTags tags), byName := byName == "1",
+                         tmax := (if tmax == "z" then none else tmax.toInt?), points := pts }
+      let more ← parseBatches (rest.drop n)
+      pure ((b, dims, gid) :: more)
+    | _ => none
+
+partial def parseExprToks : List String → Option (Expr × List String)
+  | [] => none
+  | t :: rest =>
+    let bin (op : BinOp) : Option (Expr × List String) :=
+      match parseExprToks rest with
+      | some (a, r1) =>
+        match parseExprToks r1 with
+        | some (b, r2) => some (.bin op a b, r2)
+        | none => none
+      | none => none
+    match t with
+    | "eq" => bin .eq | "ne" => bin .ne | "lt" => bin .lt | "le" => bin .le | "gt" => bin .gt | "ge" => bin .ge
+    | "add" => bin .add | "sub" => bin .sub | "mul" => bin .mul | "and" => bin .and | "or" => bin .or
+    | _ =>
+      match splitFirst t ':' with
+      | some ("r", n) => (unesc n).map (fun n => (.ref n, rest))
+      | _ => (parseVal t).map (fun v => (.lit v, rest))
+
+def parseExpr (tok : String) : Option Expr :=
+  match parseExprToks (tok.splitOn ",") with
+  | some (e, []) => some e
+  | _ => none
+
+def parseExprs (tok : String) : Option (List Expr) := (tok.splitOn "|").mapM parseExpr
+
+structure NodeLine where
+  id : Nat
+  parent : Option Nat
+  kind : String
+  args : List (String × String)
+
+def NodeLine.arg (n : NodeLine) (k : String) : String := (aget n.args k).getD ""
+
+def parseNodeLine (ts : List String) : Option NodeLine :=
+  match ts with
+  | "node" :: id :: parent :: kind :: rest => do
+    let id ← id.toNat?
+    let parent := if parent == "-" then none else parent.toNat?
+    let args := rest.filterMap (fun kv => splitFirst kv '=')
+    pure { id := id, parent := parent, kind := kind, args := args }
+  | _ => none
+
+def parseNode (n : NodeLine) : Option Node :=
+  match n.kind with
+  | "where" => (parseExpr (n.arg "e")).map Node.where_
+  | "eval" => do
+    pure (.eval { exprs := (← parseExprs (n.arg "e")), as := (← parseStrList (n.arg "as")), tags := (← parseStrList (n.arg "tags")),
+                  keep := n.arg "keep" == "1", keepList := (← parseStrList (n.arg "keeplist")) })
+  | "default" => do pure (.default_ (← parseFields (n.arg "f")) (← parseTags (n.arg "t")))
+  | "delete" => do pure (.delete (← parseStrList (n.arg "f")) (← parseStrList (n.arg "t")))
+  | "shift" => (n.arg "d").toInt?.map Node.shift
+  | "sample" => do pure (.sample (← (n.arg "n").toInt?) (← (n.arg "d").toInt?))
+  | "derivative" => do
+    pure (.derivative { field := (← unesc (n.arg "f")), as := (← unesc (n.arg "as")), unit := (← (n.arg "unit").toInt?), nonNeg := n.arg "nn" == "1" })
+  | "changeDetect" => (parseStrList (n.arg "f")).map Node.changeDetect
+  | "stateCount" => do pure (.stateCount (← parseExpr (n.arg "e")) (← unesc (n.arg "as")))
+  | "stateDuration" => do pure (.stateDuration (← parseExpr (n.arg "e")) (← unesc (n.arg "as")) (← (n.arg "unit").toInt?))
+  | "flatten" => do
+    pure (.flatten { on := (← parseStrList (n.arg "on")), delim := (← unesc (n.arg "delim")), tol := (← (n.arg "tol").toInt?), drop := n.arg "drop" == "1" })
+  | "combine" => do
+    let mx ← (n.arg "max").toInt?
+    pure (.combine { exprs := (← parseExprs (n.arg "e")), names := (← parseStrList (n.arg "as")), delim := (← unesc (n.arg "delim")),
+                     tol := (← (n.arg "tol").toInt?), max := if mx == 0 then 1000000 else mx })
+  | "groupBy" => do
+    pure (.groupBy { dims := (← parseStrList (n.arg "dims")), all := n.arg "all" == "1", excl := (← parseStrList (n.arg "excl")), byName := n.arg "byName" == "1" })
+  | _ => none
+
+/-! ### rendering (canonical: maps sorted by key) -/
+
+def sortKV {α : Type} (l : List (String × α)) : List (String × α) :=
+  (sortStrs (akeys l).eraseDups).filterMap (fun k => (aget l k).map (fun v => (k, v)))
+
+def renderVal : Val → String
+  | .int v => s!"i:{v}"
+  | .flt b => "f:" ++ hexOfU64 b
+  | .str s => "s:" ++ esc s
+  | .bool b => if b then "b:1" else "b:0"
+  | .missing => "x:missing"
+
+def renderFields (f : Fields) : String :=
+  if f.isEmpty then "-" else ",".intercalate ((sortKV f).map (fun kv => esc kv.1 ++ "=" ++ renderVal kv.2))
+def renderTags (t : Tags) : String :=
+  if t.isEmpty then "-" else ",".intercalate ((sortKV t).map (fun kv => esc kv.1 ++ "=" ++ esc kv.2))
+def renderStrs (l : List String) : String := if l.isEmpty then "-" else ",".intercalate (l.map esc)
+
+def renderPoint (p : Point) : String :=
+  ";".intercalate ["P", esc p.name, renderStrs p.dims, boolTok p.byName, esc p.gid, renderTags p.tags, renderFields p.fields, toString p.time]
+def renderBPoint (p : BPoint) : String := ";".intercalate ["b", renderTags p.tags, renderFields p.fields, toString p.time]
+def renderBatch (b : Batch) : String :=
+  " ".intercalate ((";".intercalate ["B", esc b.name, renderStrs b.dims, boolTok b.byName, esc b.gid, renderTags b.tags,
+    (match b.tmax with | some t => toString t | none => "z"), toString b.points.length]) :: b.points.map renderBPoint)
+
+def renderEdge : Edge → List String
+  | .stream ps => ps.map renderPoint
+  | .batch bs => bs.map renderBatch
+
+def sortStrings (l : List String) : List String := l.mergeSort (fun a b => decide (a ≤ b))
+
+/-! ### branch coverage of the model (which structural cases a node went through on this input) -/
+
+def histOf (ps : List Point) (i : Nat) : List Point := groupHistory (ps.take i) (ps.getD i default)
+
+def nodeBranches (n : Node) (inp : Edge) (out : Edge) : List String :=
+  let mode := match inp with | .stream _ => "s" | .batch _ => "b"
+  let inPts : List (List Point) := match inp with
+    | .stream ps => [ps]
+    | .batch bs => bs.map (fun b => b.points.map (fun p => ({ name := b.name, tags := p.tags, fields := p.fields, time := p.time } : Point)))
+  let all := inPts.flatten
+  let nOut := match out with | .stream ps => ps.length | .batch bs => (bs.flatMap (·.points)).length
+  let groups := match inp with | .stream ps => (ps.map (·.gid)).eraseDups.length | .batch bs => (bs.map (·.gid)).eraseDups.length
+  let tag := fun (k : String) (bs : List String) => bs.map (fun b => k ++ "-" ++ mode ++ ":" ++ b)
+  let common := (if groups ≥ 2 then ["multi-group"] else []) ++ (if all.isEmpty then ["empty-input"] else [])
+  let repeated := inPts.any (fun ps => (List.range ps.length).any (fun i => i > 0 && (histOf ps i).getLast?.map (·.time) == some (ps.getD i default).time))
+  match n with
+  | .where_ e =>
+    let rs := all.map (fun p => evalPred e p.fields p.tags)
+    tag "where" ((if rs.contains (some true) then ["pass"] else []) ++ (if rs.contains (some false) then ["fail"] else []) ++
+      (if rs.contains none then ["error-drop"] else []) ++ common)
+  | .eval c =>
+    let rs := all.map (fun p => evalFT c p.fields p.tags)
+    tag "eval" ((if rs.any (·.isSome) then ["ok"] else []) ++ (if rs.contains none then ["error-drop"] else []) ++
+      (if c.keep then (if c.keepList ≠ [] then ["keep-list"] else ["keep-all"]) else ["no-keep"]) ++
+      (if c.tags ≠ [] then ["tags"] else []) ++ (if c.exprs.length ≥ 2 then ["multi-expr"] else []) ++
+      (if all.any (fun p => evalShadowed c p.fields p.tags) then ["result-shadowed"] else []) ++
+      (if c.exprs.length ≥ 2 && (c.exprs.drop 1).any (fun e => e.refs.any (fun r => c.as.contains r)) then ["uses-earlier-result"] else []) ++ common)
+  | .default_ cf ct =>
+    tag "default" ((if all.any (fun p => cf.any (fun kv => (aget p.fields kv.1).isNone)) then ["field-set"] else []) ++
+      (if all.any (fun p => cf.any (fun kv => (aget p.fields kv.1).isSome)) then ["field-kept"] else []) ++
+      (if all.any (fun p => ct.any (fun kv => (aget p.tags kv.1).isNone)) then ["tag-set"] else []) ++
+      (if all.any (fun p => ct.any (fun kv => aget p.tags kv.1 == some "")) then ["tag-empty-set"] else []) ++
+      (if all.any (fun p => ct.any (fun kv => tagOr p.tags kv.1 ≠ "")) then ["tag-kept"] else []) ++ common)
+  | .delete df dt =>
+    let dimDel := match inp with
+      | .stream ps => ps.any (fun p => p.dims.any (fun d => dt.contains d))
+      | .batch bs => bs.any (fun b => b.dims.any (fun d => dt.contains d))
+    tag "delete" ((if all.any (fun p => df.any (fun k => (aget p.fields k).isSome)) then ["field-deleted"] else []) ++
+      (if all.any (fun p => df.any (fun k => (aget p.fields k).isNone)) then ["field-absent"] else []) ++
+      (if all.any (fun p => dt.any (fun k => (aget p.tags k).isSome)) then ["tag-deleted"] else []) ++
+      (if dimDel then ["dimension-deleted"] else []) ++ common)
+  | .shift d => tag "shift" ((if d < 0 then ["negative"] else ["positive"]) ++ common)
+  | .sample _ dur =>
+    tag "sample" ((if dur ≠ 0 then ["duration"] else ["count"]) ++ (if nOut > 0 then ["kept"] else []) ++
+      (if nOut < all.length then ["dropped"] else []) ++ common)
+  | .derivative c =>
+    let cases := inPts.flatMap (fun ps => (List.range ps.length).map (fun i =>
+      let p := ps.getD i default
+      let h := histOf ps i
+      if !isNumeric (aget p.fields c.field) then "non-numeric" else
+      match lastNumeric c.field h with
+      | none => "no-previous"
+      | some prev =>
+        if prev.time = p.time then "zero-elapsed" else
+        match numToFloat (aget p.fields c.field), numToFloat (aget prev.fields c.field) with
+        | some a, some b => if c.nonNeg && a - b < 0 then "negative-dropped" else
+            (if a - b < 0 then "emit-negative" else if h.getLast?.map (fun q => isNumeric (aget q.fields c.field)) == some false then "emit-skipping-non-numeric" else "emit")
+        | _, _ => "?"))
+    tag "derivative" (cases.eraseDups ++ common)
+  | .changeDetect fs =>
+    let cases := inPts.flatMap (fun ps => (List.range ps.length).map (fun i =>
+      let p := ps.getD i default
+      let h := histOf ps i
+      let prev := (emittedOf fs h).getLast?
+      if fs.all (fun f => (aget p.fields f).isNone) then "all-fields-missing" else
+      if changed fs (prev.map (·.fields)) p.fields then
+        (if prev.isNone then "first" else if prev != h.getLast? then "change-vs-older-emitted" else "change")
+      else "same"))
+    tag "changeDetect" (cases.eraseDups ++ (if fs.length ≥ 2 then ["multi-field"] else []) ++ common)
+  | .stateCount e _ | .stateDuration e _ _ =>
+    let k := match n with | .stateCount _ _ => "stateCount" | _ => "stateDuration"
+    let cases := inPts.flatMap (fun ps => (List.range ps.length).map (fun i =>
+      let p := ps.getD i default
+      let h := histOf ps i
+      match evalPred e p.fields p.tags with
+      | none => "error-drop"
+      | some false => if (currentRun e h).isEmpty then "false" else "false-ends-run"
+      | some true =>
+        if (currentRun e h).isEmpty then "run-start"
+        else if h.getLast?.map (fun q => (evalPred e q.fields q.tags).isNone) == some true then "run-continues-over-error"
+        else "run-continues"))
+    tag k (cases.eraseDups ++ (if repeated then ["repeated-time"] else []) ++ common)
+  | .flatten c =>
+    let cases := all.map (fun p => if c.on.all (fun t => (aget p.tags t).isSome) then "has-tags"
+      else if (c.on.head?.bind (fun t => aget p.tags t)).isSome then "missing-later-tag" else "missing-first-tag")
+    tag "flatten" (cases.eraseDups ++ (if c.tol ≠ 0 then ["tolerance"] else []) ++ (if c.drop then ["drop-name"] else []) ++
+      (if nOut > 0 then ["emit"] else []) ++ (if repeated then ["bucket-of-several"] else []) ++
+      (if c.on.length ≥ 2 then ["multi-dim"] else []) ++ common)
+  | .combine c =>
+    let bks : List (List BPoint) := match inp with
+      | .stream ps => (ps.map (·.gid)).eraseDups.flatMap (fun g => buckets c.tol ((ps.filter (fun p => p.gid = g)).map BPoint.ofPoint))
+      | .batch bs => bs.flatMap (fun b => buckets c.tol b.points)
+    tag "combine" ((if bks.any (fun b => b.length < c.exprs.length) then ["n-lt-k"] else []) ++
+      (if bks.any (fun b => b.length > c.exprs.length) then ["n-gt-k"] else []) ++
+      (if bks.any (fun b => combineGreedyMisses c b) then ["greedy-misses"] else []) ++
+      (if nOut > 0 then ["emit"] else []) ++ (if c.tol ≠ 0 then ["tolerance"] else []) ++
+      (if bks.any (fun b => (choose c.exprs.length b).any (fun s => (assign (combMatch c) c.exprs.length 0 s).isNone)) then ["subset-rejected"] else []) ++ common)
+  | .groupBy c =>
+    tag "groupBy" ((if c.all then ["star"] else ["listed"]) ++ (if c.excl ≠ [] then ["exclude"] else []) ++
+      (if c.byName then ["by-measurement"] else []) ++
+      (if all.any (fun p => (gbTagNames c p.tags).any (fun d => (aget p.tags d).isNone)) then ["dimension-tag-absent"] else []) ++
+      (if nOut > 0 then ["emit"] else []) ++ common)
+
+/-! ### judging -/
+
+structure CaseData where
+  nodes : Array NodeLine := #[]
+  pts : List Point := []
+  run : String := ""
+  sinks : List (Nat × List String) := []
+  snaps : List (Nat × List String) := []
+
+def parseEdge (batch : Bool) (toks : List String) : Option Edge :=
+  if batch then (parseBatches toks).map (fun l => .batch (l.map (·.1)))
+  else (parseStream toks).map (fun l => .stream (l.map (·.1)))
+
+def edgeIsBatch (nodes : Array NodeLine) : Nat → Nat → Bool
+  | 0, _ => false
+  | fuel + 1, i =>
+    match nodes[i]? with
+    | none => false
+    | some n =>
+      if n.kind == "window" then true
+      else if n.kind == "combine" || n.kind == "from" then false
+      else match n.parent with
+        | some p => edgeIsBatch nodes fuel p
+        | none => false
+
+/-- observed group ids and dimensions agree with the ones derived from the data (models.ToGroupID) -/
+def gidsOk (batch : Bool) (toks : List String) : Bool :=
+  if batch then
+    match parseBatches toks with
+    | some l => l.all (fun (b, dims, gid) => esc b.gid == gid && renderStrs b.dims == dims)
+    | none => false
+  else
+    match parseStream toks with
+    | some l => l.all (fun (p, gid) => esc p.gid == gid)
+    | none => false
+
+def edgeEquivB : Edge → Edge → Bool
+  | .stream a, .stream b => listEquivB Point.equivB a b
+  | .batch a, .batch b => listEquivB Batch.equivB a b
+  | _, _ => false
+
+def short (l : List String) : String := " ".intercalate (l.take 6)
+
+/-- The documented function of node `n` applied to the observed input; `none` when the spec gives no single answer
+(checked by a predicate instead) or its precondition fails. -/
+def specOut (n : Node) (inp : Edge) : Option Edge :=
+  match n, inp with
+  | .where_ e, .stream ps => some (.stream (specWhere e ps))
+  | .where_ e, .batch bs => some (.batch (bs.map (fun b => { b with points := b.points.filter (fun p => evalPred e p.fields p.tags = some true) })))
+  | .default_ f t, .stream ps => some (.stream (ps.map (specDefault f t)))
+  | .default_ f t, .batch bs => some (.batch (bs.map (fun b =>
+      { b with tags := (specDefaultFT f t [] b.tags).2,
+               points := b.points.map (fun p => let r := specDefaultFT f t p.fields p.tags; { p with fields := r.1, tags := r.2 }) })))
+  | .delete f t, .stream ps => some (.stream (ps.map (specDelete f t)))
+  | .delete f t, .batch bs => some (.batch (bs.map (fun b =>
+      { b with tags := tabulate (akeys b.tags) (specDeleteAt t b.tags),
+               points := b.points.map (fun p => { p with fields := tabulate (akeys p.fields) (specDeleteAt f p.fields),
+                                                         tags := tabulate (akeys p.tags) (specDeleteAt t p.tags) }) })))
+  | .shift d, .stream ps => some (.stream (ps.map (specShift d)))
+  | .shift d, .batch bs => some (.batch (bs.map (fun b => { b with tmax := b.tmax.map (· + d), points := b.points.map (fun p => { p with time := p.time + d }) })))
+  | .groupBy c, .stream ps => some (.stream (ps.map (specGroupBy c)))
+  | .eval c, .stream ps => some (.stream (specEval c ps))
+  | .eval c, .batch bs => some (.batch (bs.map (fun b => { b with points := b.points.filterMap (fun p =>
+      (specEvalFT c p.fields p.tags).map (fun r => { p with fields := r.1, tags := r.2 })) })))
+  | .sample k d, .stream ps => some (.stream (specSample k d ps))
+  | .derivative c, .stream ps => some (.stream (specDerivative c ps))
+  | .changeDetect f, .stream ps => some (.stream (specChangeDetect f ps))
+  | .stateCount e a, .stream ps => some (.stream (specStateCount e a ps))
+  | .stateDuration e a u, .stream ps => some (.stream (specStateDuration e a u ps))
+  | .flatten c, .stream ps => if groupTimesOrdered c.tol ps then some (.stream (specFlatten c ps)) else none
+  | .flatten c, .batch bs => some (.batch (bs.map (specFlattenBatch c)))
+  -- batch edges of the per-group nodes: the stream function on the points of each batch with a fresh history
+  | n, .batch bs =>
+    let asPts := fun (b : Batch) => b.points.map (fun p => ({ name := b.name, tags := p.tags, fields := p.fields, time := p.time } : Point))
+    let back := fun (b : Batch) (ps : List Point) => { b with points := ps.map BPoint.ofPoint }
+    match n with
+    | .sample k d => some (.batch (bs.map (fun b => back b (specSample k d (asPts b)))))
+    | .derivative c => some (.batch (bs.map (fun b => back b (specDerivative c (asPts b)))))
+    | .changeDetect f => some (.batch (bs.map (fun b => back b (specChangeDetect f (asPts b)))))
+    | .stateCount e a => some (.batch (bs.map (fun b => back b (specStateCount e a (asPts b)))))
+    | .stateDuration e a u => some (.batch (bs.map (fun b => back b (specStateDuration e a u (asPts b)))))
+    | _ => none
+  | _, _ => none
+
+/-- combine: check the observed points bucket by bucket against the documented combinations. -/
+def combineOk (c : CombineCfg) (inp : Edge) (obs : List Point) : Bool × Bool :=   -- (ok, greedy deviation present)
+  -- the units of work in arrival order: (name, dims, byName, bucket) — for a stream the LAST bucket of a group stays buffered
+  let units : List (String × List String × Bool × List BPoint) := match inp with
+    | .batch bs => bs.flatMap (fun b => (buckets c.tol b.points).map (fun bk => (b.name, b.dims, b.byName, bk)))
+    | .stream ps =>
+      -- closed buckets in the order in which they are closed: walk the stream
+      let rec go (hist : List Point) : List Point → List (String × List String × Bool × List BPoint)
+        | [] => []
+        | p :: rest =>
+          let h := groupHistory hist p
+          (match h.head?, h.getLast? with
+            | some first, some l =>
+              if roundTo p.time c.tol = roundTo l.time c.tol then []
+              else [(first.name, first.dims, first.byName, (openBucket c.tol h).map BPoint.ofPoint)]
+            | _, _ => []) ++ go (hist ++ [p]) rest
+      go [] ps
+  let miss := units.any (fun u => combineGreedyMisses c (u.2.2.2.map (fun p => { p with time := roundTo p.time c.tol })))
+  -- consume the observed list unit by unit; the number of points a unit takes is the number of admissible subsets
+  -- (under the recorded deviation: the number of subsets on which the greedy walk succeeds)
+  let rec eat (greedy : Bool) : List (String × List String × Bool × List BPoint) → List Point → Bool
+    | [], rest => rest.isEmpty
+    | (name, dims, byName, bk) :: us, rest =>
+      let k := c.exprs.length
+      let rb := bk.map (fun p => { p with time := roundTo p.time c.tol })
+      let subsets := (choose k rb).filter (fun s => if greedy then (assign (combMatch c) k 0 s).isSome else assignments (combMatch c) k 0 s ≠ [])
+      let mine := rest.take subsets.length
+      mine.length == subsets.length &&
+      (subsets.zip mine).all (fun (s, o) => (assignments (combMatch c) k 0 s).any (fun sel => (combPoint c name dims byName sel).equivB o)) &&
+      eat greedy us (rest.drop subsets.length)
+  (eat false units obs, miss)
+
+def flattenAmbiguous (c : FlattenCfg) (inp : Edge) : Bool :=
+  -- with dropOriginalFieldName two fields of one point get the same name: Go map order decides
+  c.drop && (match inp with
+    | .stream ps => ps.any (fun p => p.fields.length ≥ 2)
+    | .batch bs => bs.any (fun b => b.points.any (fun p => p.fields.length ≥ 2)))
+
+def judge (_id : String) (lines : Array String) : Verdict := Id.run do
+  let mut cd : CaseData := {}
+  for l in lines do
+    let (opT, obs) := splitObs (tokens l)
+    match opT with
+    | "node" :: _ =>
+      match parseNodeLine opT with
+      | some n => cd := { cd with nodes := cd.nodes.push n }
+      | none => return .badop l
+    | ["pt", name, tags, fields, time] =>
+      match (do pure ({ name := (← unesc name), tags := (← parseTags tags), fields := (← parseFields fields), time := (← time.toInt?) } : Point)) with
+      | some p => cd := { cd with pts := cd.pts ++ [p] }
+      | none => return .badop l
+    | ["run"] => cd := { cd with run := " ".intercalate obs }
+    | ["sink", id] =>
+      match id.toNat? with
+      | some i => cd := { cd with sinks := cd.sinks ++ [(i, obs.drop 1)] }
+      | none => return .badop l
+    | ["snap", id] =>
+      match id.toNat? with
+      | some i => cd := { cd with snaps := cd.snaps ++ [(i, obs)] }
+      | none => return .badop l
+    | _ => return .badop l
+  if cd.run == "err:task" || cd.run == "timeout" then
+    return .specfail "task-completes" s!"the task did not run to completion: {cd.run}"
+  if cd.run != "ok" then return .badop s!"run {cd.run}"
+  let sinkOf := fun (i : Nat) => (cd.sinks.find? (fun s => s.1 == i)).map (·.2)
+  -- aliasing, part 1: the final view of every sink equals the private copy taken at ingestion
+  for (i, obs) in cd.snaps do
+    if obs != ["same"] then
+      return .specfail "sibling-sees-original" s!"sink {i}: the messages changed after they were received: now {short ((sinkOf i).getD [])} at ingestion {short (obs.drop 1)}"
+  -- aliasing, part 2: the sink under from() shows exactly the written points
+  match sinkOf 0 with
+  | some toks =>
+    match parseStream toks with
+    | some obs =>
+      if !listEquivB Point.equivB (obs.map (·.1)) cd.pts then
+        return .specfail "sibling-sees-original" s!"sink 0 (under from) does not show the written points: {short toks}"
+    | none => return .badop "sink 0 unparsable"
+  | none => return .badop "sink 0 missing"
+  let mut br : List String := []
+  let mut nt := false
+  let mut knownHit : Option (String × String) := none
+  for n in cd.nodes do
+    if n.id == 0 then continue
+    let some par := n.parent | return .badop s!"node {n.id} without parent"
+    let some inToks := sinkOf par | return .badop s!"no sink for node {par}"
+    let some outToks := sinkOf n.id | return .badop s!"no sink for node {n.id}"
+    let inBatch := edgeIsBatch cd.nodes 64 par
+    let outBatch := edgeIsBatch cd.nodes 64 n.id
+    let some inp := parseEdge inBatch inToks | return .badop s!"sink {par} unparsable"
+    let some obs := parseEdge outBatch outToks | return .badop s!"sink {n.id} unparsable: {short outToks}"
+    if !gidsOk outBatch outToks then
+      return .specfail "group-id" s!"node {n.id} ({n.kind}): an emitted message carries a group id or dimensions that do not belong to its name/tags: {short outToks}"
+    if n.kind == "window" then
+      -- not a C10 node (C03): only its points must be points that went in (they share their maps with them)
+      let inPts : List BPoint := match inp with | .stream ps => ps.map BPoint.ofPoint | .batch _ => []
+      let outPts : List BPoint := match obs with | .batch bs => bs.flatMap (fun (b : Batch) => b.points) | .stream _ => []
+      if !outPts.all (fun p => inPts.any (fun q => q.equivB p)) then
+        return .specfail "sibling-sees-original" s!"node {n.id} (window) emitted a point that is none of the points it received"
+      br := br ++ ["window"]
+      continue
+    let some node := parseNode n | return .badop s!"node {n.id} unparsable"
+    -- (1) the property on the observed output
+    match node with
+    | .combine c =>
+      let obsPts := match obs with | .stream ps => ps | .batch _ => []
+      let (ok, _) := combineOk c inp obsPts
+      if !ok then
+        -- the recorded deviation explains it only if the greedy variant of the documented function matches exactly
+        let greedyOk := (Node.run node inp |> fun m => edgeEquivB m obs)
+        let miss := match inp with
+          | .batch bs => bs.any (fun b => (buckets c.tol b.points).any (fun bk => combineGreedyMisses c (bk.map (fun p => { p with time := roundTo p.time c.tol }))))
+          | .stream ps => (ps.map (·.gid)).eraseDups.any (fun g => (buckets c.tol ((ps.filter (fun p => p.gid = g)).map BPoint.ofPoint)).any (fun bk => combineGreedyMisses c (bk.map (fun p => { p with time := roundTo p.time c.tol }))))
+        if miss && greedyOk then
+          knownHit := some ("combine-greedy-assignment", s!"node {n.id}: a subset that admits an assignment of the lambdas was not emitted")
+        else
+          return .specfail "combine-spec" s!"node {n.id}: observed {short outToks}"
+    | .groupBy c =>
+      match inp, obs with
+      | .batch ins, .batch outs =>
+        if !specGroupByBatchOk c ins outs then return .specfail "groupBy-spec" s!"node {n.id}: observed {short outToks}"
+      | _, _ =>
+        match specOut node inp with
+        | some sp => if !edgeEquivB sp obs then return .specfail "groupBy-spec" s!"node {n.id}: documented {short (renderEdge sp)} observed {short outToks}"
+        | none => pure ()
+    | .flatten c =>
+      if flattenAmbiguous c inp then br := br ++ ["flatten:ambiguous-skipped"]; continue
+      match specOut node inp with
+      | some sp => if !edgeEquivB sp obs then return .specfail "flatten-spec" s!"node {n.id}: documented {short (renderEdge sp)} observed {short outToks}"
+      | none => br := br ++ ["flatten:unordered-times-model-only"]
+    | .eval c =>
+      match specOut node inp with
+      | some sp =>
+        if !edgeEquivB sp obs then
+          let shadow := match inp with
+            | .stream ps => ps.any (fun p => evalShadowed c p.fields p.tags)
+            | .batch bs => bs.any (fun b => b.points.any (fun p => evalShadowed c p.fields p.tags))
+          if shadow && edgeEquivB (Node.run node inp) obs then
+            knownHit := some ("eval-result-shadowed", s!"node {n.id}: a result named like an existing field/tag was overwritten by a later reference")
+          else return .specfail "eval-spec" s!"node {n.id}: documented {short (renderEdge sp)} observed {short outToks}"
+      | none => pure ()
+    | _ =>
+      match specOut node inp with
+      | some sp => if !edgeEquivB sp obs then return .specfail s!"{n.kind}-spec" s!"node {n.id}: documented {short (renderEdge sp)} observed {short outToks}"
+      | none => return .badop s!"no spec for node {n.id} {n.kind}"
+    -- (2) the tie: model = implementation
+    let m := Node.run node inp
+    let same := match node, m, obs with
+      | .groupBy _, .batch a, .batch b => sortStrings (a.map renderBatch) == sortStrings (b.map renderBatch)
+      | _, _, _ => edgeEquivB m obs
+    if !same then return .mismatch s!"node {n.id} ({n.kind}): model {short (renderEdge m)} observed {short outToks}"
+    br := br ++ (nodeBranches node inp obs).filter (fun b => !br.contains b)
+    if (renderEdge obs) != (renderEdge inp) && !(renderEdge obs).isEmpty then nt := true
+  match knownHit with
+  | some (k, d) => return .known k d
+  | none => return .ok nt br
+
+end Kap.C10.Drv
+
+def main : IO Unit := Kap.driverMain Kap.C10.Drv.judge
